@@ -14,7 +14,7 @@ open Pyoda.C08 (InCal)
 
 def fullDateSteps : List Step :=
   [.num .year .year 4 4 (-9999) 9999, .lit ['-'], .num .monthNum .monthNum 2 2 1 99, .lit ['-'],
-   .num .dayOfMonth .dayOfMonth 2 2 1 99, .lit [' ', '('], .calendar, .lit [')']]
+   .num .dayOfMonth .dayOfMonth 2 2 1 99, .lit [' '], .lit ['('], .calendar, .lit [')']]
 
 theorem fullDate_compiles :
     compiledSteps (compileCustom .date invariantCulture "uuuu'-'MM'-'dd '('c')'".toList) = some (38016, fullDateSteps) := by
@@ -49,7 +49,7 @@ theorem fullDate_generic_roundtrip (cal : Int) (hcal : 0 ≤ cal ∧ cal ≤ 18)
   have hval : ∀ s ∈ fullDateSteps, ValOK (dateGetterC cal c y m d) s := by
     intro s hs
     simp only [fullDateSteps, List.mem_cons, List.mem_nil_iff, or_false] at hs
-    rcases hs with rfl | rfl | rfl | rfl | rfl | rfl | rfl | rfl
+    rcases hs with rfl | rfl | rfl | rfl | rfl | rfl | rfl | rfl | rfl
     · exact ⟨by simp only [dateGetterC]; omega, by simp only [dateGetterC]; omega, by decide, by decide, by decide,
         by simp only [dateGetterC]; omega⟩
     · trivial
@@ -58,6 +58,7 @@ theorem fullDate_generic_roundtrip (cal : Int) (hcal : 0 ≤ cal ∧ cal ≤ 18)
     · trivial
     · exact ⟨by simp only [dateGetterC]; omega, by simp only [dateGetterC]; omega, by decide, by decide, by decide,
         by simp only [dateGetterC]; omega⟩
+    · trivial
     · trivial
     · exact hcal
     · trivial
